@@ -302,8 +302,24 @@ func (t *taskState) scribbleOp(i int, po *prepOp) {
 // marshalAppendOp: out = Marshal(out, &v) the way the README recommends.
 func (t *taskState) marshalAppendOp(i int, po *prepOp) {
 	p := t.inst(po)
-	if t.out == nil {
-		t.out = make([]byte, 0, 256)
+	// how the caller prepares its destination buffer
+	need := len(po.expBytes)
+	switch po.op.Arg {
+	case 1:
+		t.out = []byte{} // empty, non-nil, no capacity
+	case 2:
+		c := need / 2
+		t.out = make([]byte, 0, c) // empty, too small
+	case 3:
+		t.out = make([]byte, 0, need) // empty, exactly enough
+	case 4:
+		t.out = append(make([]byte, 0, 8+need), "prefix!!"...) // prefix, exactly enough room
+	case 5:
+		t.out = append(make([]byte, 0, 8+need/2), "prefix!!"...) // prefix, must grow
+	default:
+		if t.out == nil {
+			t.out = make([]byte, 0, 256) // a log that keeps growing
+		}
 	}
 	oldLen := len(t.out)
 	backing := t.out[:cap(t.out)]
@@ -373,4 +389,49 @@ func (t *taskState) aliasCheck(i int, po *prepOp, enc []byte) {
 		t.fail(i, po, "alias", "the marshalled value changed when the returned bytes were overwritten, at "+path)
 	}
 	copy(enc, saved)
+}
+
+// marshalTargetOp (C10): marshal the value that sits in a re-used target - the
+// same address as earlier marshals, with whatever content the history left -
+// into a nil or a caller-supplied buffer. The result must be what a brand-new
+// instance gives for a copy of that value.
+func (t *taskState) marshalTargetOp(i int, po *prepOp) {
+	tgt, ok := t.targets[po.op.Target]
+	if !ok {
+		return
+	}
+	p := t.inst(po)
+	cfg := t.x.prep.sc.Insts[po.op.Inst]
+	cl := world.Clone(tgt.Elem())
+	exp, eerr, epan := soloMarshal(cfg, cl.Addr().Interface())
+	if epan != "" {
+		return
+	}
+	var buf []byte
+	switch po.op.Arg {
+	case 1:
+		buf = make([]byte, 0, 64)
+	case 2:
+		buf = append(make([]byte, 0, 16), "log:"...)
+	}
+	pre := len(buf)
+	b, err := p.Marshal(buf, tgt.Interface())
+	t.probe("marshal_of_reused_value")
+	if errText(err) != eerr {
+		t.fail(i, po, "error-mismatch", fmt.Sprintf("Marshal of the re-used value gives error %q, a brand-new instance %q", errText(err), eerr))
+		return
+	}
+	if err != nil || (b == nil && exp == nil) {
+		return
+	}
+	if len(b) < pre || !world.SameEncoding(tgt.Type().Elem(), b[pre:], exp) {
+		t.fail(i, po, "leak", fmt.Sprintf("Marshal of the value in a re-used variable gives %s, a brand-new instance gives %s for the same value", hexShort(b[min(pre, len(b)):]), hexShort(exp)))
+	}
+}
+
+func min(a, b int) int {
+	if a < b {
+		return a
+	}
+	return b
 }
